@@ -29,6 +29,8 @@ def lookup_intrinsic(pyf):
     e = _TABLE.get(id(pyf))
     if e is not None and e[0] is pyf:
         return e[1]
+    if getattr(pyf, "__self__", None) is np.add and getattr(pyf, "__name__", "") == "accumulate":
+        return _accumulate
     # pint Quantity classes are created per registry: recognise by class hierarchy
     try:
         import pint
@@ -498,6 +500,8 @@ def _sym_extreme(ex, st, sq: Seq, is_max):
     key = ("extreme", id(sq), is_max)
     if key in memo:
         return memo[key][0]
+    if getattr(ex.ctx, "no_let", 0) > 0:
+        ex.ctx.fresh_in_dry_run = True
     m = z3.Real(fresh_name("max" if is_max else "min"))
     w = z3.Int(fresh_name("argext"))
     n = to_int(sq.n)
@@ -759,6 +763,8 @@ def _argmax(ex, st, args, kwargs, node):
             out = ite(sq.items[k], k, out)
         return out
     # first true index, 0 if none
+    if getattr(ex.ctx, "no_let", 0) > 0:
+        ex.ctx.fresh_in_dry_run = True
     r = z3.Int(fresh_name("argmax"))
     n = to_int(sq.n)
     j = z3.Int(fresh_name("q"))
@@ -797,6 +803,8 @@ def _round(ex, st, args, kwargs, node):
     if len(args) > 1:
         raise Unsupported("round(x, n) on symbolic value")
     # round-half-even to an integer: r with |x - r| <= 1/2 (tie rule not modelled -> constrained but not unique)
+    if getattr(ex.ctx, "no_let", 0) > 0:
+        ex.ctx.fresh_in_dry_run = True
     r = z3.Int(fresh_name("round"))
     xr = to_real(x)
     st.assume(z3.And(z3.ToReal(r) - xr <= z3.RealVal("1/2"), xr - z3.ToReal(r) <= z3.RealVal("1/2")))
